@@ -1297,6 +1297,31 @@ func (c *Ctx) ruleN4(impls []*types.Named) {
 				seeds = append(seeds, v)
 			}
 		})
+		// … or a parameter that a caller fills with the decoded heads (a boxing helper)
+		for idx, p := range f.Params {
+			if !strings.HasSuffix(typeStr(p.Type()), "[]*berty.tech/go-ipfs-log/entry.Entry") {
+				continue
+			}
+			for _, g := range c.RepoFns {
+				if c.isTestFile(g.Pos()) {
+					continue
+				}
+				eachCall(g, func(cs ssa.CallInstruction) {
+					if cs.Common().StaticCallee() != f || idx >= len(cs.Common().Args) {
+						return
+					}
+					var gs []ssa.Value
+					eachInstr(g, func(x ssa.Instruction) {
+						if v, ok := x.(ssa.Value); ok && isWireHeadsField(v) {
+							gs = append(gs, v)
+						}
+					})
+					if len(gs) > 0 && derived(gs, flowOpts{})[cs.Common().Args[idx]] {
+						seeds = append(seeds, p)
+					}
+				})
+			}
+		}
 		if len(seeds) == 0 {
 			continue
 		}
